@@ -164,6 +164,33 @@ def run(repo, rep, tier):
     from . import c09 as _c09
     L.borrow(repo, rep, "R07.4", "C09", _c09.element_details,
              ("quote-when-computed", "decode-which"))
+    ee = repo.func("chameleon.compiler.ExpressionEngine.__init__")
+    a_ = ee.node.args
+    names_ = [x.arg for x in a_.args]
+    dflt_ = dict(zip(names_[len(names_) - len(a_.defaults):], a_.defaults))
+    dflt_.update({k.arg: d for k, d in zip(a_.kwonlyargs, a_.kw_defaults)
+                  if d is not None})
+    lf = dflt_.get("literal_false")
+    rep.check(isinstance(lf, ast.Constant) and lf.value is True, "R07.4",
+              ee.qualname, "a false value is written literally unless the "
+              "engine is told otherwise (boolean attributes say so "
+              "explicitly): the default of literal_false is True",
+              construct="literal-false-default", where=L.where(ee),
+              detail=src(lf) if lf is not None else "missing")
+    # generated identifiers: mangle() replaces every character that is not a
+    # word character (an attribute 'xml:lang' or 'data-a.b' gives a local)
+    from .. import rx as _rx
+    rm = repo.const("chameleon.compiler", "RE_MANGLE")
+    items = list(_rx.parse(rm.pattern, rm.flags))
+    okm = len(items) == 1
+    if okm:
+        replaced = _rx.all_chars(items)
+        kept_bad = [ch for ch in ":.-+ /\\'\"<>[]" if ch not in replaced]
+        okm = not kept_bad and not any(
+            ch in replaced for ch in "azAZ09_")
+    rep.check(okm, "R07.4", "chameleon.compiler.RE_MANGLE", "the mangling "
+              "pattern replaces exactly the characters that are not word "
+              "characters", construct="mangle-class", detail=rm.pattern)
     L.state_rule(repo, rep)
 
 
